@@ -124,10 +124,16 @@ func submitAndSettle(w *World, name string, spec SetSpec) (*Call, error) {
 // a leaf written (by a LATER request) beneath a node that an earlier request
 // deleted is dropped from the stored configuration by the next commit on that
 // target, because the stale tombstone stays in the store.
+type writeRec struct {
+	path model.Path
+	req  int
+}
+
 type zombieTracker struct {
-	listCase bool
-	deleted map[string][]delRec       // target -> deleted nodes
-	written map[string]map[string]int // target -> leaf path text -> request number of the last write
+	listCase  bool
+	allWrites map[string]map[string][]writeRec
+	deleted   map[string][]delRec       // target -> deleted nodes
+	written   map[string]map[string]int // target -> leaf path text -> request number of the last write
 }
 
 type delRec struct {
@@ -148,6 +154,13 @@ func (z *zombieTracker) note(req int, ops []model.Op) {
 				z.written[op.Target] = map[string]int{}
 			}
 			z.written[op.Target][op.Path.String()] = req
+			if z.allWrites == nil {
+				z.allWrites = map[string]map[string][]writeRec{}
+			}
+			if z.allWrites[op.Target] == nil {
+				z.allWrites[op.Target] = map[string][]writeRec{}
+			}
+			z.allWrites[op.Target][op.Path.String()] = append(z.allWrites[op.Target][op.Path.String()], writeRec{op.Path, req})
 		}
 	}
 }
@@ -173,6 +186,31 @@ func (z *zombieTracker) exposed(t string, l model.Path, cur int) bool {
 			// pruned by the very commit that writes it
 			if n := len(d.node); n > 0 && len(d.node[n-1].Keys) == 0 && len(l) > n-1 && len(l[n-1].Keys) > 0 {
 				z.listCase = true
+				return true
+			}
+			// nested tombstones: the walk up the parents stops at the NEAREST deleted
+			// ancestor; if a farther one is a stale tombstone (something was written
+			// beneath it by an earlier request, so it sits in the store for good) it
+			// prunes the leaf at the very commit that writes it
+			if z.staleTombstone(t, d, cur) {
+				for _, d2 := range z.deleted[t] {
+					if d2.req < cur && model.Covers(d2.node, l) && len(d2.node) > len(d.node) && len(d2.node) < len(l) {
+						return true
+					}
+				}
+			}
+		}
+	}
+	return false
+}
+
+// staleTombstone: node d was deleted and a LATER request, earlier than cur, wrote
+// a leaf beneath it (which cleared the tombstone in memory only).
+func (z *zombieTracker) staleTombstone(t string, d delRec, cur int) bool {
+	for k, wr := range z.allWrites[t] {
+		_ = k
+		for _, w := range wr {
+			if w.req > d.req && w.req < cur && model.Covers(d.node, w.path) && len(d.node) < len(w.path) {
 				return true
 			}
 		}
